@@ -2377,4 +2377,96 @@ theorem diff_entry (env : Env) (A B : St) (hA : WF env A) (hB : WF env B)
       sk _ _ _ 5 (by simp [sectionOf]) (sec_fronts A B false), sk _ _ _ 7 (by simp [sectionOf]) (sec_fronts A B true),
       sk _ _ _ 8 (by simp [sectionOf]) (sec_tcpFronts A B false), sk _ _ _ 9 (by simp [sectionOf]) (sec_tcpFronts A B true), h1]
 
+-- ------------------------------------------------ C05: requests per entry --
+
+theorem filter_genEntry (env : Env) (t : Target) (e : Target × Val) (h : EntryOK env e.1 e.2) :
+    (genEntry e).filter (fun c => decide (tgt c = some t)) = if e.1 = t then genEntry e else [] := by
+  by_cases he : e.1 = t
+  · rw [if_pos he]
+    apply List.filter_eq_self.mpr
+    intro c hc
+    have := genEntry_tgt env e.1 e.2 h c hc
+    simp [this, he]
+  · rw [if_neg he]
+    apply List.filter_eq_nil_iff.mpr
+    intro c hc
+    have := genEntry_tgt env e.1 e.2 h c hc
+    simp only [this, decide_eq_true_eq]
+    intro h'; injection h' with h'; exact he h'
+
+theorem filter_entries (env : Env) (t : Target) (L : List (Target × Val)) :
+    (L.map (·.1)).Nodup → (∀ e ∈ L, EntryOK env e.1 e.2) →
+    (L.flatMap genEntry).filter (fun c => decide (tgt c = some t)) =
+      match L.find? (fun e => e.1 = t) with
+      | some e => genEntry e
+      | none => [] := by
+  induction L with
+  | nil => intro _ _; rfl
+  | cons e L ih =>
+    intro hnd hok
+    have hnd' : e.1 ∉ L.map (·.1) ∧ (L.map (·.1)).Nodup := List.nodup_cons.mp hnd
+    have hokL : ∀ e' ∈ L, EntryOK env e'.1 e'.2 := fun e' he' => hok e' (by simp [he'])
+    simp only [List.flatMap_cons, List.filter_append, filter_genEntry env t e (hok e (by simp))]
+    by_cases he : e.1 = t
+    · have hnone : L.find? (fun e => decide (e.1 = t)) = none := by
+        apply List.find?_eq_none.mpr
+        intro x hx hxt
+        simp at hxt
+        apply hnd'.1
+        rw [he, ← hxt]
+        exact List.mem_map.mpr ⟨x, hx, rfl⟩
+      rw [ih hnd'.2 hokL, hnone]
+      simp [List.find?_cons, he]
+    · rw [ih hnd'.2 hokL]
+      simp [List.find?_cons, he]
+
+theorem filter_generate (env : Env) (s : St) (hs : WF env s) (t : Target) :
+    (generateRequests s).filter (fun c => decide (tgt c = some t)) =
+      match s.find? (fun e => e.1 = t) with
+      | some e => genEntry e
+      | none => [] := by
+  have hsec : ∀ i, ((sectionEntries s i).flatMap genEntry).filter (fun c => decide (tgt c = some t)) =
+      if i = sectionOf t then
+        (match s.find? (fun e => e.1 = t) with
+         | some e => genEntry e
+         | none => [])
+      else [] := by
+    intro i
+    have hsub : (sectionEntries s i).Sublist s := List.filter_sublist
+    rw [filter_entries env t _ (List.Nodup.sublist (List.Sublist.map _ hsub) hs.1)
+      (fun e he => hs.2 e (hsub.subset he)), find_section]
+    by_cases hi : i = sectionOf t <;> simp [hi]
+  have hr : List.range 11 = [0, 1, 2, 3, 4, 5, 6, 7, 8, 9, 10] := by decide
+  unfold generateRequests
+  rw [hr]
+  simp only [List.flatMap_cons, List.flatMap_nil, List.append_nil, List.filter_append, hsec]
+  cases t <;> simp [sectionOf]
+
+/-- two lists holding the same bindings (one per key) answer every lookup the same way -/
+theorem find_perm (s s' : St) (hnd : (s.map (·.1)).Nodup) (hnd' : (s'.map (·.1)).Nodup)
+    (hp : ∀ e, e ∈ s ↔ e ∈ s') (t : Target) :
+    s.find? (fun e => e.1 = t) = s'.find? (fun e => e.1 = t) := by
+  have key : ∀ (a b : St), (a.map (·.1)).Nodup → (b.map (·.1)).Nodup → (∀ e, e ∈ a ↔ e ∈ b) →
+      ∀ e, a.find? (fun e => e.1 = t) = some e → b.find? (fun e => e.1 = t) = some e := by
+    intro a b ha hb hab e he
+    have hm := List.mem_of_find?_eq_some he
+    have hk : e.1 = t := by simpa using List.find?_some he
+    have hmb := (hab e).mp hm
+    cases hf : b.find? (fun e => decide (e.1 = t)) with
+    | none => exact absurd hk (by simpa using (List.find?_eq_none.mp hf) e hmb)
+    | some e' =>
+      have hm' := List.mem_of_find?_eq_some hf
+      have hk' : e'.1 = t := by simpa using List.find?_some hf
+      obtain ⟨t1, v1⟩ := e; obtain ⟨t2, v2⟩ := e'
+      simp only at hk hk'; subst hk; subst hk'
+      have l1 := look_of_mem b hb _ _ hmb
+      have l2 := look_of_mem b hb _ _ hm'
+      rw [l1] at l2; injection l2 with l2; rw [l2]
+  cases h : s.find? (fun e => decide (e.1 = t)) with
+  | none =>
+    cases h' : s'.find? (fun e => decide (e.1 = t)) with
+    | none => rfl
+    | some e' => rw [key s' s hnd' hnd (fun e => (hp e).symm) e' h'] at h; cases h
+  | some e => exact (key s s' hnd hnd' hp e h).symm
+
 end Sozu.State
